@@ -1,3 +1,31 @@
+//! vx-pval: checkers for the p-value properties C11 (MEME-style distribution), C12 / C13
+//! (TFM-PVALUE).  Invoked by /verif/bin/check.
+
+mod exact;
+
+mod c11;
+mod c12;
+mod c13;
+
 fn main() {
-    vx_core::cli::main(|_prop, _ctx, _rep| false, |_prop, _ctx, _rep, _case| false);
+    vx_core::cli::main(
+        |prop, ctx, rep| {
+            match prop {
+                "C11" => c11::run(ctx, rep),
+                "C12" => c12::run(ctx, rep),
+                "C13" => c13::run(ctx, rep),
+                _ => return false,
+            }
+            true
+        },
+        |prop, ctx, rep, case| {
+            match prop {
+                "C11" => c11::replay(ctx, rep, case),
+                "C12" => c12::replay(ctx, rep, case),
+                "C13" => c13::replay(ctx, rep, case),
+                _ => return false,
+            }
+            true
+        },
+    );
 }
